@@ -4,6 +4,7 @@ import (
 	"go/ast"
 	"go/token"
 	"go/types"
+	"regexp"
 )
 
 // propRules lists, per property, the rules whose obligations decide its
@@ -12,16 +13,17 @@ var propRules = map[string][]string{
 	"C05": {"C05.R1", "C05.R1b", "C05.R2", "C05.R3", "C10.R2", "C10.R4", "C06.R3", "C06.R4", "C06.R5"},
 	"C01": {"C01.R2", "C01.R3", "C01.R4", "C01.R6", "C02.R4", "C12.R4", "C13.R4", "C14.R1", "C03.R1"},
 	"C02": {"C02.R1", "C02.R2", "C02.R3", "C02.R4", "C02.R5", "C02.R6", "C11.R4", "C10.R4", "C12.R4", "C01.R4"},
-	"C03": {"C03.R1", "C03.R7", "C14.R1", "C04.R2", "C04.R4", "C09.R3"},
+	"C03": {"C03.R1", "C03.R7", "C14.R1", "C14.R3", "C04.R2", "C04.R4", "C09.R3"},
 	"C04": {"C04.R1", "C04.R2", "C04.R4", "C02.R1", "C02.R2"},
-	"C14": {"C14.R1"},
+	"C14": {"C14.R1", "C14.R2", "C14.R3", "C14.R4", "C01.R2"},
+	"C15": {"C15.R1", "C15.R2", "C15.R3", "C15.R4", "C15.R5", "C14.R2"},
 	"C07": {"C07.R1", "C07.R2", "C07.R3", "C07.R4", "C02.R1", "C05.R3"},
 	"C08": {"C08.R1", "C08.R2", "C08.R3", "C08.R4"},
 	"C09": {"C09.R1", "C09.R2", "C09.R3", "C09.R4"},
 	"C10": {"C10.R1", "C10.R2", "C10.R3", "C10.R4"},
 	"C12": {"C12.R1", "C12.R2", "C12.R3", "C12.R4"},
-	"C13": {"C13.R1", "C13.R2", "C13.R3", "C13.R4"},
-	"C11": {"C11.R1", "C11.R2", "C11.R4", "C06.R5"},
+	"C13": {"C13.R1", "C13.R2", "C13.R3", "C13.R4", "C15.R5"},
+	"C11": {"C11.R1", "C11.R2", "C11.R4", "C06.R5", "C01.R4"},
 	"C06": {"C06.R1", "C06.R2", "C06.R3", "C06.R4", "C06.R5", "C12.R2"},
 }
 
@@ -363,4 +365,8 @@ func (fi *FuncInfo) labelInside(name string, body ast.Node) bool {
 // loopComplete reports whether the loop visits every element (no early exit).
 func (fi *FuncInfo) loopComplete(loop ast.Stmt) bool {
 	return len(fi.loopExits(loop)) == 0
+}
+
+func regexpMatch(pat, s string) bool {
+	return regexp.MustCompile(pat).MatchString(s)
 }
